@@ -260,6 +260,8 @@ macro_rules! cache_check {
 
         // Do the cache lookup.
         let cache_key = (Nonterminal::$nonterminal, start);
+        #[cfg(feature = "verif-hooks")]
+        verif_hooks::record(Nonterminal::$nonterminal as usize, $cache.contains_key(&cache_key));
         if let Some(result) = $cache.get(&cache_key) {
             return result.clone();
         }
@@ -4071,6 +4073,29 @@ fn parse_jumbo_term<'a>(
         cache_key,
         (error_term(tokens, start, "an expression"), start, false),
     )
+}
+
+// Memoization counters for the external verification harness (feature `verif-hooks`, off by
+// default): per nonterminal, how many times its parsing function found its result in the cache
+// (hits) and how many times it had to run its body (misses).
+#[cfg(feature = "verif-hooks")]
+pub mod verif_hooks {
+    use std::cell::RefCell;
+
+    thread_local! {
+        pub static CACHE_STATS: RefCell<[(usize, usize); 36]> = const { RefCell::new([(0, 0); 36]) };
+    }
+
+    pub fn record(nonterminal: usize, hit: bool) {
+        CACHE_STATS.with(|stats| {
+            let mut stats = stats.borrow_mut();
+            if hit {
+                stats[nonterminal].0 += 1;
+            } else {
+                stats[nonterminal].1 += 1;
+            }
+        });
+    }
 }
 
 #[cfg(test)]
